@@ -327,6 +327,37 @@ func registerBig() {
 			return x.setBig(a[0], x.ts.RBin(op, p, q))
 		}
 	}
+	// natural logarithm of a concrete big.Float (lattigo's bignum.Log wraps an arbitrary-precision library that works
+	// on the representation of big.Float): host float64 approximation, -2^1000 standing for -Inf.  Only used by the
+	// library for sanity comparisons of scales (Scale.InDelta), never for ciphertext values.
+	intrinsics[lat+"/utils/bignum.Log"] = func(x *Exec, fn *ssa.Function, a []Value) Value {
+		_, p := x.bigCell(a[0])
+		if !p.IsConst() {
+			panic(x.errf("bignum.Log of a symbolic value"))
+		}
+		r := new(big.Rat)
+		switch p.Rat.Sign() {
+		case 0:
+			r.SetInt(new(big.Int).Neg(new(big.Int).Lsh(big.NewInt(1), 1000)))
+		case -1:
+			panic(x.errf("bignum.Log of a negative value"))
+		default:
+			f, _ := p.Rat.Float64()
+			if f == 0 || math.IsInf(f, 0) {
+				// outside float64: use the bit lengths
+				n, d := p.Rat.Num().BitLen(), p.Rat.Denom().BitLen()
+				r.SetFloat64(float64(n-d) * math.Ln2)
+			} else {
+				r.SetFloat64(math.Log(f))
+			}
+		}
+		return x.newBig(x.ts.Real(r), nil)
+	}
+	intrinsics[lat+"/utils/bignum.Log2"] = func(x *Exec, fn *ssa.Function, a []Value) Value {
+		r := new(big.Rat)
+		r.SetFloat64(math.Ln2)
+		return x.newBig(x.ts.Real(r), nil)
+	}
 	intrinsics["math/big.NewFloat"] = func(x *Exec, fn *ssa.Function, a []Value) Value {
 		f := a[0].(FloatV).F
 		r := new(big.Rat)
